@@ -237,6 +237,7 @@ var props = map[string]*Prop{
 		Units: []Unit{
 			{Name: "provider-response-sequences", Pkg: "internal/llm", Test: "TestVerifC13", Shards: sh(16, 16), GoMaxProcs: 2, TimeoutS: sh(1800, 3600), DeadlineS: sh(600, 1500)},
 			{Name: "commit-message-envelope", Pkg: "internal/llm", Test: "TestVerifC13Messages", Shards: sh(2, 2)},
+			{Name: "gemini-candidates", Pkg: "internal/llm", Test: "TestVerifC13Gemini", Shards: sh(4, 4), TimeoutS: sh(900, 900)},
 			{Name: "audit-exit-status", Pkg: "internal/llm", Test: "TestVerifC13CLI", Shards: sh(8, 8), Builds: []Build{{Pkg: "cmd/sfw", Out: "sfw"}}},
 		},
 	},
